@@ -46,7 +46,7 @@ def make_gw(g):
     return d
 
 
-def frames_for(g, k):
+def frames_for(g, k, unknown_family=False):
     """the search responses a gateway like g sends: (plain SearchResponse, SearchResponseExtended or None for a Core-V1 device)"""
     from xknx.knxip import HPAI, DIBServiceFamily, KNXIPFrame, SearchResponse, SearchResponseExtended
     from xknx.knxip.dib import DIBDeviceInformation, DIBSecuredServiceFamilies, DIBSuppSVCFamilies
@@ -81,6 +81,23 @@ def frames_for(g, k):
             sec.families.append(F(DIBServiceFamily.ROUTING, 1))
         ext.dibs = [info, fam] + ([sec] if (g.get("secdib", 1) or g["sectun"] or g["secrout"]) else [])
     rt = lambda b: KNXIPFrame.from_knx(KNXIPFrame.init_from_body(b).to_knx())[0]      # as received from the wire
+    if unknown_family and ext is not None:
+        # the device lists a service family this library does not know (id 0x0A) in front of the secured ones: whatever the parser makes of
+        # the answer, the services listed after it stay secured (an answer that cannot be read is as good as lost)
+        raw = bytearray(KNXIPFrame.init_from_body(ext).to_knx())
+        dibs, pos = {}, 6 + 8
+        while pos < len(raw):
+            dibs[raw[pos + 1]] = pos
+            pos += raw[pos]
+        pos = dibs.get(0x06, dibs.get(0x02))            # the secured service families, else the supported ones
+        raw[pos + 2:pos + 2] = bytes([0x0A, 0x01])
+        raw[pos] += 2
+        raw[4], raw[5] = len(raw) >> 8, len(raw) & 0xFF
+        try:
+            ext_fr = KNXIPFrame.from_knx(bytes(raw))[0]
+        except Exception:  # noqa: BLE001 - not readable: lost
+            ext_fr = None
+        return rt(plain), ext_fr, ep
     return rt(plain), (rt(ext) if ext is not None else None), ep
 
 
@@ -128,8 +145,11 @@ def run_scan(gws, fails, use_keyring, via_scanner=None, flt=None):
         tr = Mock()
         tr.local_addr = ("10.0.0.1", 0)
         for k, g in enumerate(gws):
-            plain, ext, ep = frames_for(g, k)
-            order = [plain] if ext is None else {"ext_first": [ext, plain], "plain_first": [plain, ext], "ext_lost": [plain]}[via_scanner]
+            plain, ext, ep = frames_for(g, k, unknown_family=(via_scanner == "ext_unknown"))
+            if via_scanner == "ext_unknown":      # (Core-V1 devices have no extended answer)
+                order = [plain] if ext is None else [ext, plain]
+            else:
+                order = [plain] if ext is None else {"ext_first": [ext, plain], "plain_first": [plain, ext], "ext_lost": [plain]}[via_scanner]
             for fr in order:
                 self._response_rec_callback(fr, ep, tr, interface="eth0", queue=q)
             while not q.empty():
@@ -170,12 +190,12 @@ def run_scan(gws, fails, use_keyring, via_scanner=None, flt=None):
     if via_scanner is not None:
         # what a scanner may report: a Core-V2 device only through its extended answer (the plain one cannot say what is secured),
         # a Core-V1 device through its plain answer - which cannot announce secured services
-        rec = [r for r, g in zip(rec, gws) if not (g.get("core", 1) >= 2 and via_scanner == "ext_lost")]
+        rec = [r for r, g in zip(rec, gws) if not (g.get("core", 1) >= 2 and via_scanner in ("ext_lost", "ext_unknown"))]
     if via_scanner is not None:              # the scan filter (default or configured): only matching gateways are reported (the filter itself is judged separately)
         from xknx.io import GatewayScanFilter  # noqa: PLC0415
 
         f = GatewayScanFilter(**(flt or {}))
-        keep = [bool(f.match(make_gw(g))) for g in gws if not (via_scanner == "ext_lost" and g.get("core", 1) >= 2)]
+        keep = [bool(f.match(make_gw(g))) for g in gws if not (via_scanner in ("ext_lost", "ext_unknown") and g.get("core", 1) >= 2)]
         rec = [r for r, k_ in zip(rec, keep) if k_]
     return {"t": "scan", "gws": rec, "ev": ev}
 
@@ -213,7 +233,7 @@ def run(ck):
     FILTERS = [None, {"secure_tunnelling": False, "secure_routing": False}, {"tunnelling": False, "tunnelling_tcp": False, "routing": False},
                {"secure_tunnelling": False}, {"tunnelling_tcp": False, "secure_routing": False}]
     for g in [g for g in single if expressible(g)]:
-        for mode in ("ext_first", "plain_first", "ext_lost"):
+        for mode in ("ext_first", "plain_first", "ext_lost", "ext_unknown"):
             for flt in FILTERS:
                 if flt is None or ck.tier != "quick" or rnd.random() < 0.5:
                     scans.append(([g], set(), False, mode, flt))
@@ -223,7 +243,7 @@ def run(ck):
     for _ in range(300 if ck.tier == "quick" else 4000):
         k = rnd.choice([2, 2, 3])
         gws = [rnd.choice(pool2) for _ in range(k)]
-        scans.append((gws, {j for j in range(k) if rnd.random() < 0.5}, rnd.random() < 0.5, rnd.choice(("ext_first", "plain_first", "ext_lost")), rnd.choice(FILTERS)))
+        scans.append((gws, {j for j in range(k) if rnd.random() < 0.5}, rnd.random() < 0.5, rnd.choice(("ext_first", "plain_first", "ext_lost", "ext_unknown")), rnd.choice(FILTERS)))
     traces = [run_scan(*s) for s in scans]
     res = tlc.batch(ck, "io/AutoConnect_Trace", traces)
     for idx, info in sorted(res.bad.items()):
